@@ -309,7 +309,7 @@ fn force(cfg: &'static Cfg, ld: &Arc<Loaded>, cap: usize, bps: &[usize], cmds: &
         CV.notify_all();
         let moved = wait_until(HANG_WINDOW_MS, |g| g.lanes[C].arrivals > a0 || g.lanes[P].arrivals > a1 || (g.lanes[P].done && g.lanes[P].at.is_none() && false));
         let (c_at, p_at) = with_gate(|g| (g.lanes[C].at, g.lanes[P].at));
-        if moved { format!("LIVE({:?},{:?})", c_at, p_at) } else { "HANG".to_string() }
+        if moved { let _ = (c_at, p_at); "LIVE".to_string() } else { "HANG".to_string() }
     };
     let t_status = t_case.elapsed();
     // clean-up: open the gates, drain whatever channel the parsing thread may be blocked on
